@@ -404,6 +404,12 @@ func (g *Gen) build(fn string, args [][]byte) (string, []string) {
 			ops[i] = "bytes"
 		}
 	}
+	if len(ops) > 0 && g.R.Intn(8) == 0 {
+		ops[len(ops)-1] = "setlast"
+	}
+	if g.R.Intn(10) == 0 {
+		ops = append(ops, "reuse")
+	}
 	// the data string a client would send is the documented encoding; Apply replays the builder
 	// calls and compares (so that a builder defect is found by an event that replays)
 	return spec.EncodeData(fn, args), ops
